@@ -38,8 +38,11 @@ fn main() {
         std::process::exit(2);
     }
     let cmd = args[1].as_str();
-    let tier = args.get(2).map(|s| s.as_str()).unwrap_or("quick");
-    let tier = std::env::var("VERIF_TIER").ok().filter(|t| t == "quick" || t == "thorough").unwrap_or(tier.to_string());
+    // the tier named on the command line wins; VERIF_TIER only fills in when none is given
+    let tier = match args.get(2).map(|s| s.as_str()) {
+        Some(t) if t == "quick" || t == "thorough" => t.to_string(),
+        _ => std::env::var("VERIF_TIER").ok().filter(|t| t == "quick" || t == "thorough").unwrap_or_else(|| "quick".to_string()),
+    };
     let replay = args.iter().position(|a| a == "--replay").and_then(|i| args.get(i + 1)).cloned();
 
     if cmd == "gen" {
@@ -88,7 +91,7 @@ fn main() {
             let base = rng::Rng::new(seed).sub_n("genstats", i as u64);
             let mut r = base.sub("p");
             let k = gen::Knobs::random(&mut r);
-            let shape = gen::ProjectShape { max_files: 3, max_defs: 6, with_main: true, pragma_always: false };
+            let shape = gen::ProjectShape { max_files: 3, max_defs: 6, with_main: true, pragma_always: false, name_suffix: String::new() };
             let p = gen::gen_project(&mut r, &k, &shape);
             let w = p.render(&mut base.sub("s"), &gen::Style::plain());
             let case = common::make_case(&p, w, &common::Opts::base(), common::quiet_plan(&mut base.sub("k")));
